@@ -8,7 +8,8 @@ E2E_RUN = {"level": "detect", "replayable": True,
            "args_thorough": ["--focus", "E2E", "--n", "2500", "--max-len", "3000", "--big", "0", "--full-every", "1"]}
 E2E_RULE = ("; end-to-end: every generated case up to 3000 bytes is ALSO run through the detect model in which the mess detector, the "
             "coherence scan, the script layers, the Jaro score, the merge, the single-byte languages and the declaration matcher are the "
-            "models themselves (driver command DETECTFULL); only the codecs, the per-character properties and alphabet_languages are still "
+            "models themselves, and UTF-8, UTF-16LE/BE and every single-byte codec are DECODED by the models (Model/Codecs.v) "
+            "(driver command DETECTFULL = from_bytes F32ops (Pipeline.pipeline_dec B)); only the 8 CJK codecs, the per-character properties and alphabet_languages are still "
             "answered by the library; the result must equal the real from_bytes line for line, bit for bit")
 MD_RUN = {"level": "md", "args_quick": ["--n", "400"], "args_thorough": ["--n", "12000"]}
 MD_RULE = ("; md level: md::mess_ratio (uncached body) against Model/Md.v -- the eight detector plugins, the checkpoint periods and the early exit -- "
@@ -48,7 +49,8 @@ PROPS["C01"] = {
     "module": "PropC01",
     "theorems": ["C01_sound", "C01_decodes", "C01_ascii_partial", "C01_ascii_refuted",
                  "C01_decodes_single_byte_modelled", "C01_single_byte_decoding_is_bytewise",
-                 "C01_no_single_byte_table_holds_feff", "C01_decodes_with_the_crates_tables"],
+                 "C01_no_single_byte_table_holds_feff", "C01_decodes_with_the_crates_tables",
+                 "C01_decodes_pipeline", "C01_lazy_contract_holds_of_the_pipeline", "C01_supported_single_byte_names_have_tables"],
     "model_targets": ["Model/Decode.vo"],
     "runs": [detect_run("C01", 260, 4000, bigq=2, bigt=12),
              {"level": "decode", "args_quick": ["--n", "600"], "args_thorough": ["--n", "20000"]}, NAMES_RUN],
@@ -85,7 +87,8 @@ PROPS["C05"] = {
 
 PROPS["C07"] = {
     "module": "PropC07",
-    "theorems": ["C07_flag_truthful", "C07_text_after_mark", "C07_marks_prefix_free", "C07_text_after_mark_single_byte_modelled"],
+    "theorems": ["C07_flag_truthful", "C07_text_after_mark", "C07_marks_prefix_free", "C07_text_after_mark_single_byte_modelled",
+                 "C07_text_after_mark_pipeline", "C07_marks_encode_feff", "C07_marked_unicode_input_exposes_the_text_after_the_mark"],
     "model_targets": ["Model/Decode.vo"],
     "runs": [detect_run("C07", 300, 5000)],
     "search": detect_search("C07"),
@@ -102,7 +105,8 @@ PROPS["C04"] = {
                  "C04_threshold_binary32", "C04_coherence_range_binary32", "C04_float_laws_hold_for_binary32",
                  "C04_valid_utf8_yields_match", "C04_mess_never_nan_or_negative", "C04_threshold_mess_modelled", "C04_md_shape_pinned",
                  "C04_jaro_score_in_unit_interval", "C04_mean_of_unit_scores", "C04_coherence_in_unit_interval_modelled",
-                 "C04_pipeline_chaos", "C04_pipeline_coherence"],
+                 "C04_pipeline_chaos", "C04_pipeline_coherence",
+                 "C04_pipeline_dec_chaos", "C04_pipeline_dec_coherence", "C04_every_string_yields_a_match"],
     "model_targets": ["Model/Md32.vo"],
     "runs": [detect_run("C04", 300, 5000, bigq=1, bigt=8), MD_RUN, CD_RUN, E2E_RUN],
     "search": detect_search("C04"),
@@ -124,7 +128,8 @@ PROPS["C04"] = {
 PROPS["C13"] = {
     "module": "PropC13",
     "theorems": ["C13_covering_windows_agree", "C13_chaos_function", "C13_same_text_same_chaos", "C13_chaos_function_binary32",
-                 "C13_mess_is_bank_sum_of_a_prefix", "C13_mess_full_scan_when_threshold_not_reached"],
+                 "C13_mess_is_bank_sum_of_a_prefix", "C13_mess_full_scan_when_threshold_not_reached",
+                 "C13_same_text_same_chaos_across_inputs", "C13_unicode_forms_same_chaos", "C13_chaos_function_pipeline"],
     "model_targets": ["Model/Md32.vo"],
     "runs": [detect_run("C13", 260, 4000)],
     "search": detect_search("C13"),
@@ -274,7 +279,9 @@ PROPS["C03"] = {
 PROPS["C17"] = {
     "module": "PropC17",
     "theorems": ["C17_utf8_window_decodes", "C17_char_suffix_is_continuation", "C17_strict_ok", "C17_test_only_agrees", "C17_automaton_facts",
-                 "C17_utf8_helper_never_out_of_fuel", "C17_single_byte_helper_never_out_of_fuel"],
+                 "C17_utf8_helper_never_out_of_fuel", "C17_single_byte_helper_never_out_of_fuel",
+                 "C17_every_scalar_value_encodes_to_a_character", "C17_utf8_round_trip", "C17_utf16_round_trip",
+                 "C17_modelled_codecs_one_char_per_byte_at_most", "C17_single_byte_closed_form_is_the_helper"],
     "model_targets": ["Model/Decode.vo"],
     "runs": [{"level": "decode", "args_quick": ["--n", "1500"], "args_thorough": ["--n", "60000"]}],
     "search": {"level": "decode", "args": ["--n", "12000"]},
@@ -283,7 +290,14 @@ PROPS["C17"] = {
             "compared with the codec crate's own decode; the UTF-8 decoder model (all modes incl. chunk) and the single-byte decoder model "
             "(30 forward tables dumped from the crate at run time) compared with the helper; and ALL windows [i,j) of short valid UTF-8 "
             "texts mixing 1-4 byte characters (incl. U+7FF/U+800/U+FFFF/U+10000/U+10FFFF) that contain a complete character, decoded in "
-            "chunk mode against the expected complete characters and against the model; non-trivial = successful decodes",
+            "chunk mode against the expected complete characters and against the model; the UTF-16LE/BE decoder model (Model/Utf.v) against "
+            "the helper in strict / test-only / chunk / ignore / replace mode on re-encoded corpus text, surrogate / BOM / noncharacter code-unit "
+            "soups and random bytes (corrupted, truncated to odd lengths, shifted by one byte), and against the codec crate's RAW decoder fed in "
+            "1-4 pieces cut at random positions (processed count, characters, error kind and upto of every feed and of the finish: the "
+            "pending-byte / pending-surrogate state); the UTF-8 and UTF-16 ENCODER models against String contents, utils::encode and "
+            "str::encode_utf16, and utf8_chars against str::chars, on corpus text and boundary code points of every encoded length; and "
+            "Model/Codecs.v BY ENCODING NAME (what DETECTFULL decodes with) against the helper in strict / test-only / chunk mode for every "
+            "supported name -- every name outside the 8 CJK codecs must be modelled; non-trivial = successful decodes",
     "assumptions": ["clause (a) 'helper = codec' is definitional in the model (two copies of one loop): its tie is the decode correspondence",
                     "CJK and UTF-16 decoders are compared helper-vs-crate only (not modelled)"],
     "trusted": [],
